@@ -333,7 +333,7 @@ def run_invariants(tpl):
         from vtlengine.Model import Dataset
         out["script"] = render(tpl["ast"])
         case = H.Case(tpl["id"], tpl["ast"], tpl["structs"], nrows=tpl.get("nrows", 2), scalars=tpl.get("scalars"),
-                      scalar_values=tpl.get("scalar_values"), opts=tpl.get("opts")).build()
+                      scalar_values=tpl.get("scalar_values"), opts=tpl.get("opts"), evaluator_cls=_evaluator(tpl)).build()
         try:
             case.encode()
         except (Unsupported, sqlglot_errors.ParseError) as e:
@@ -455,7 +455,7 @@ def run_order(tpl):
         from vtlengine.Exceptions import VTLEngineException
         out["script"] = render(tpl["ast"])
         case = H.Case(tpl["id"], tpl["ast"], tpl["structs"], nrows=tpl.get("nrows", 2), scalars=tpl.get("scalars"),
-                      scalar_values=tpl.get("scalar_values"), opts=tpl.get("opts")).build()
+                      scalar_values=tpl.get("scalar_values"), opts=tpl.get("opts"), evaluator_cls=_evaluator(tpl)).build()
         try:
             case.encode()
         except (Unsupported, sqlglot_errors.ParseError) as e:
